@@ -121,7 +121,31 @@ def write_replay(prop, prob):
 # process pool -------------------------------------------------------------
 # --------------------------------------------------------------------------
 
-_PMAP_CALLS = []       # parent-side registry: (func, items, nblocks) per pmap call, inherited by forked workers
+_PMAP_CALLS = []       # parent-side registry: (func, items, nblocks, on_timeout) per pmap call, inherited by forked workers
+
+
+class CaseTimeout(BaseException):
+    """raised by the per-item alarm inside library or harness code (BaseException: `except Exception` does not eat it)"""
+
+
+ITEM_LIMIT_S = float(os.environ.get("VERIF_ITEM_LIMIT_S", "0") or 0)
+
+
+def _item_limit():
+    if ITEM_LIMIT_S:
+        return ITEM_LIMIT_S
+    return 900.0 if (os.environ.get("VERIF_TIER_EFFECTIVE", "quick") == "quick") else 5400.0
+
+
+def _default_timeout_result(item, limit, timed_out=True):
+    a = Acc()
+    if not timed_out:
+        a.count("work_items_skipped_after_a_timeout")
+        return a
+    a.add_problem(problem("did_not_terminate", {"work_item": repr(item)[:400], "limit_s": limit},
+                          expected=f"the work item finishes (it takes seconds on the unchanged tree; limit {limit:.0f} s)",
+                          observed="still running when the limit expired: some call into the library does not terminate"))
+    return a
 
 
 def _run_block(args):
@@ -129,17 +153,31 @@ def _run_block(args):
     Cases inside a block share the interpreter state the library may keep between calls (module-level caches,
     mutated tables), deterministically: the same block always sees the same sequence of cases."""
     global CURRENT_PROV
+    import signal
     call_id, b, upto = args
-    func, items, nblocks = _PMAP_CALLS[call_id]
+    func, items, nblocks, on_timeout = _PMAP_CALLS[call_id]
     idxs = list(range(b, len(items), nblocks))
     if upto is not None:
         idxs = idxs[:upto + 1]
+    limit = _item_limit()
+
+    def _alarm(signum, frame):
+        raise CaseTimeout()
+    signal.signal(signal.SIGALRM, _alarm)
     out = []
     for pos, i in enumerate(idxs):
         CURRENT_PROV = (call_id, b, pos)
         try:
             reset_store()
-            out.append((i, "ok", func(items[i])))
+            signal.setitimer(signal.ITIMER_REAL, limit)
+            try:
+                r = func(items[i])
+            finally:
+                signal.setitimer(signal.ITIMER_REAL, 0)
+            out.append((i, "ok", r))
+        except CaseTimeout:
+            out.append((i, "timeout", (on_timeout or _default_timeout_result)(items[i], limit)))
+            break           # one non-terminating call refutes the property; do not wait for the others of this block
         except BaseException:  # noqa
             out.append((i, "err", traceback.format_exc()))
             break
@@ -147,7 +185,7 @@ def _run_block(args):
     return out
 
 
-def pmap(func, items, jobs=None, chunksize=None):
+def pmap(func, items, jobs=None, chunksize=None, on_timeout=None):
     """Run func over items in deterministic strided blocks, each block in its own freshly forked process.
     func must be a module-level function.  Results are returned in item order.  A crash inside the harness
     itself (not a property violation) aborts the run with exit code 2."""
@@ -157,18 +195,32 @@ def pmap(func, items, jobs=None, chunksize=None):
         return []
     nblocks = max(1, min(len(items), jobs * 4))
     call_id = len(_PMAP_CALLS)
-    _PMAP_CALLS.append((func, items, nblocks))
+    _PMAP_CALLS.append((func, items, nblocks, on_timeout))
     tasks = [(call_id, b, None) for b in range(nblocks)]
     ctx = mp.get_context("fork")
-    with ctx.Pool(min(jobs, nblocks), maxtasksperchild=1) as pool:
-        outs = pool.map(_run_block, tasks, 1)
     res = [None] * len(items)
-    for blk in outs:
-        for i, st, v in blk:
-            if st == "err":
-                sys.stderr.write("HARNESS-ERROR: worker crashed:\n" + v + "\n")
-                sys.exit(2)
-            res[i] = v
+    timed_out = False
+    pool = ctx.Pool(min(jobs, nblocks), maxtasksperchild=1)
+    try:
+        for blk in pool.imap_unordered(_run_block, tasks, 1):
+            for i, st, v in blk:
+                if st == "err":
+                    sys.stderr.write("HARNESS-ERROR: worker crashed:\n" + v + "\n")
+                    pool.terminate()
+                    sys.exit(2)
+                res[i] = v
+                if st == "timeout":
+                    timed_out = True
+            if timed_out:
+                break               # stop the remaining blocks: the run already has its counterexample
+    finally:
+        pool.terminate()
+        pool.join()
+    if timed_out or any(r is None for r in res):
+        f = on_timeout or _default_timeout_result
+        for i in range(len(items)):
+            if res[i] is None:
+                res[i] = f(items[i], _item_limit(), False)
     return res
 
 
